@@ -318,6 +318,11 @@ func (it *Interp) exec(fr *frame, b *ssa.BasicBlock, start int, pred *ssa.BasicB
 					fr.env[ins] = v
 				default:
 					fr.env[ins] = TopV
+					// an entry of a package-level constant table at constant indexes
+					// (mulForms[x.form][y.form])
+					if v, ok := it.tableEntry(fr, ins); ok {
+						fr.env[ins] = v
+					}
 				}
 			case token.NOT:
 				if bv, ok := ConstBool(x); ok {
@@ -878,4 +883,35 @@ func pureScalar(fn *ssa.Function) bool {
 		}
 	}
 	return true
+}
+
+// tableEntry evaluates a load of g[i][j]… for a package-level variable g with a constant
+// initialiser, when every index is a known constant.
+func (it *Interp) tableEntry(fr *frame, ld *ssa.UnOp) (Val, bool) {
+	var idx []int64
+	addr := ld.X
+	for {
+		ia, ok := addr.(*ssa.IndexAddr)
+		if !ok {
+			break
+		}
+		k, ok := ConstInt(it.val(fr, ia.Index))
+		if !ok {
+			return nil, false
+		}
+		idx = append([]int64{k}, idx...)
+		addr = ia.X
+	}
+	g, ok := addr.(*ssa.Global)
+	if !ok || len(idx) == 0 {
+		return nil, false
+	}
+	v, ok := it.M.ConstTableLookup(g, idx)
+	if !ok {
+		return nil, false
+	}
+	if v.Kind() == constant.Int {
+		return wrap(v, ld.Type()), true
+	}
+	return Const{v}, true
 }
